@@ -220,8 +220,23 @@ def make_truth(rng, shape=None, n=None):
     return T
 
 
+def _compound(coeff):
+    """does the coefficient contain a `+` or `-` at the top level (outside parentheses, not the leading sign)?  Then it must be parenthesised"""
+    depth = 0
+    for i, ch in enumerate(coeff):
+        if ch == "(":
+            depth += 1
+        elif ch == ")":
+            depth -= 1
+        elif ch in "+-" and depth == 0 and i > 0 and coeff[i - 1] not in "*/(eE":
+            return True
+    return False
+
+
 def _coef_times(rng, coeff, var):
     """a spelling of coeff*var"""
+    if _compound(coeff):
+        return ("(%s)*%s" % (coeff, var)) if rng.random() < 0.5 else ("%s*(%s)" % (var, coeff))
     if coeff == "1":
         return rng.choice([var, "1*" + var, "1.0*" + var])
     if coeff == "-1":
